@@ -616,13 +616,13 @@ pub fn crash_gen(p: &mut Profile) {
         "C04" => {
             g.par_pct = 35;
             g.max_clients = 4;
-            g.racy_discard_pct = 0;
+            g.racy_discard_pct = 30;
             g.op_weights = [45, 4, 16, 16, 5, 3, 1, 0, 0];
         }
         "C05" => {
             g.par_pct = 25;
             g.max_clients = 3;
-            g.racy_discard_pct = 0;
+            g.racy_discard_pct = 30;
             g.op_weights = [45, 4, 14, 10, 4, 0, 1, 0, 0];
             g.sync_points = 2;
         }
@@ -630,7 +630,7 @@ pub fn crash_gen(p: &mut Profile) {
             // C12: growth
             g.growth_geometry = true;
             g.par_pct = 10;
-            g.racy_discard_pct = 0;
+            g.racy_discard_pct = 30;
             g.l1_short_pct = 20;
             g.op_weights = [70, 3, 6, 8, 2, 2, 0, 0, 0];
             g.max_write_clusters = 40;
